@@ -211,9 +211,17 @@ class SimFS:
         raise ValueError(mode)
 
 
+_UUID_RE = None
+
+
 def _suffix(name):
-    # uuid-named temp files are logged by suffix only (the uuid is deterministic anyway, but keep logs short)
-    return name
+    """File names as they enter the event log: a real uuid4 (which only appears when the library bypasses the simulated
+    uuid source) would make the digest differ from process to process, so it is logged as '<uuid>'."""
+    global _UUID_RE
+    if _UUID_RE is None:
+        import re
+        _UUID_RE = re.compile(r"[0-9a-f]{8}-[0-9a-f]{4}-[0-9a-f]{4}-[0-9a-f]{4}-[0-9a-f]{12}")
+    return _UUID_RE.sub("<uuid>", str(name))
 
 
 def _oserr(code, name):
@@ -326,6 +334,9 @@ class FakePycryptosat:
         class Solver:
             def __init__(self, *a, **k):
                 self.clauses = []
+                # a solver that was given a conflict or time limit may legitimately answer "unknown" on a formula it
+                # finds hard; the library as shipped passes no limit, so this only matters for a change that adds one
+                self.limited = any(k.get(x) is not None for x in ("confl_limit", "time_limit"))
                 outer.world.count("peer.new")
 
             def add_clause(self, clause):
@@ -336,12 +347,17 @@ class FakePycryptosat:
 
             def solve(self, assumptions=None):
                 w = outer.world
+                w.run_interleaved()
                 f = w.peer_fault("solve")
                 if f == "unknown":
                     w.log.append(("peer.solve", "lib", "UNKNOWN"))
                     return (None, None)
                 if f:
                     raise f
+                if self.limited and w.peer.rng.random() < 0.2:
+                    w.count("peer.limit-reached")
+                    w.log.append(("peer.solve", "lib", "UNKNOWN(limit)"))
+                    return (None, None)
                 w.record_peer_input("lib", self.clauses, None)
                 model = w.peer.solve(self.clauses)
                 if model is None:
@@ -390,6 +406,7 @@ class ScriptedRandom:
         self.draws = 0
         self.draw_log = []
         self.flip = False
+        self.track = True            # exact probability ledger and draw log (switched off for million-draw needle cases)
         self.float_script = None     # optional callable(site) -> float for continuous draws
 
     def mark(self):
@@ -406,17 +423,21 @@ class ScriptedRandom:
         self.draws += 1
         if w.draw_cap is not None and self.draws > w.draw_cap:
             raise HarnessCap("draw cap exceeded")
-        if self.mode == "lo":
+        # corner scripts (always the first / the last / alternating candidate) turn random after a while: a rejection
+        # loop that is fed the same candidate for ever only runs into the draw cap and the run is wasted
+        mode = self.mode if self.draws <= 600 else "random"
+        if mode == "lo":
             v = lo
-        elif self.mode == "hi":
+        elif mode == "hi":
             v = hi - 1
-        elif self.mode == "alt":
+        elif mode == "alt":
             self.flip = not self.flip
             v = lo if self.flip else hi - 1
         else:
             v = lo + self.rng.randrange(n)
-        self.ledger *= Fraction(1, n)
-        self.draw_log.append((lo, hi, v))
+        if self.track:
+            self.ledger *= Fraction(1, n)
+            self.draw_log.append((lo, hi, v))
         if len(w.log) < w.log_cap:
             w.log.append(("rng", lo, hi, v))
         w.count("rng.int")
@@ -560,6 +581,7 @@ class SimWorld:
         self.draw_cap = None
         self.peer_models = []
         self.peer_inputs = []
+        self.on_solve = None      # one-shot callback run at the next solver/sampler invocation: "another caller ran meanwhile"
         self.op_trace = {"fs": [], "peer": []}      # kind of every file / peer operation by index (fault-sweep placements)
         self.fs = SimFS(self)
         self.peer = PeerPolicy(self, self.knobs["peer"])
@@ -627,6 +649,17 @@ class SimWorld:
             return e
         return None
 
+    def run_interleaved(self):
+        """The instant at which the library waits for its solver is where another caller thread of the same process gets to
+        run (pycryptosat releases the GIL; the CLI is a child process).  A check may register what that other caller does;
+        it runs here, once, to completion - one interleaving of two callers, chosen by the simulator, without real threads."""
+        cb = self.on_solve
+        if cb is not None:
+            self.on_solve = None
+            self.count("interleaved-second-caller")
+            self.log.append(("interleave", "second-caller-runs"))
+            cb()
+
     def record_peer_input(self, transport, clauses, ind):
         self.peer_inputs.append((transport, [list(c) for c in clauses], list(ind) if ind is not None else None))
 
@@ -636,6 +669,7 @@ class SimWorld:
         exe = os.path.basename(str(command[0]))
         if "cryptominisat" in exe:
             fname = str(command[-1])
+            self.run_interleaved()
             text = self.fs.read(fname)
             k = self.peer_fault("solve")
             if k == "unknown":
